@@ -23,17 +23,23 @@
 (*             a row are read back from the row's own keys                 *)
 (*  Replicate  cluster/replication receiver applyEntry ->                  *)
 (*             coordinator.buildReplicationIngestHandler: database from    *)
-(*             the envelope or "default", measurement from the row's keys  *)
+(*             the envelope, else the row's _database, else "default";     *)
+(*             measurement from the row's keys                             *)
 (* The payload may carry routing-like names (decoys) as tag / field /      *)
 (* column, with a string or an integer value.                              *)
 (*                                                                         *)
-(* LiveOK is expected to hold.  ReplayOK / ReplicaOK are the same          *)
-(* judgement on the two other legs; the model as written violates them     *)
-(* (candidates); the verdict is taken from the replay on the real code.    *)
+(* LiveOK / ReplayOK / ReplicaOK are the same judgement on the three legs   *)
+(* and hold for the current code (constants TRUE, TRUE, FALSE).  The       *)
+(* constants FALSE, FALSE, TRUE model the code before the repairs          *)
+(* 6d2312a / 138d6b9 (MC_prefix.cfg, a negative control TLC must reject).  *)
 (***************************************************************************)
 EXTENDS Naturals, Sequences, FiniteSets, TLC, Json
 
-CONSTANTS CsvFallsThrough,  \* TRUE = as written: importPreamble answers 4xx but returns a nil error, so the
+CONSTANTS RoutingKeysLast,  \* TRUE = current code (138d6b9): columnarToWALRecords / typedBatchToWALRecords write
+                            \* _database/_measurement AFTER the user's columns; FALSE = before the repair (user wins)
+          ReplicaUsesRowDb, \* TRUE = current code (138d6b9): replicated row entries are applied under the row's
+                            \* _database; FALSE = before the repair (no envelope -> "default")
+          CsvFallsThrough,  \* TRUE = as written: importPreamble answers 4xx but returns a nil error, so the
                             \* CSV import carries on with database "" and measurement "" and no check
           MaxDecoys,    \* 1 or 2
           AllPairs,     \* TRUE: every pair of decoys with distinct names; FALSE: only (int, str) pairs of one family
@@ -105,13 +111,18 @@ Buffer ==
 \* value of key k in the WAL row of measurement m: the user's column wins over the base key
 HasDecoy(k)  == \E d \in req.decoys : d.name = k
 DecoyOf(k)   == CHOOSE d \in req.decoys : d.name = k
-RowStr(k, base) == IF HasDecoy(k) THEN (IF DecoyOf(k).vt = "str" THEN DecoyVal(DecoyOf(k)) ELSE "")
+RowStr(k, base) == IF RoutingKeysLast /\ k \in {"_database", "_measurement"} THEN base
+                   ELSE IF HasDecoy(k) THEN (IF DecoyOf(k).vt = "str" THEN DecoyVal(DecoyOf(k)) ELSE "")
                    ELSE base
 RowMeas(m) == LET a == RowStr("_measurement", m) b == RowStr("measurement", "") c == RowStr("m", "")
               IN IF a # "" THEN a ELSE IF b # "" THEN b ELSE c          \* "" = row skipped
 EffDb      == IF bypassed THEN "" ELSE db
 RowDb      == LET a == RowStr("_database", EffDb) b == RowStr("database", "")
               IN IF a # "" THEN a ELSE IF b # "" THEN b ELSE "default"
+
+\* coordinator.buildReplicationIngestHandler, row entries: no envelope
+ReplicaDb  == LET a == RowStr("_database", EffDb)
+              IN IF ReplicaUsesRowDb /\ a # "" THEN a ELSE "default"
 
 Recover ==
     /\ phase = "stored" /\ replay = {}
@@ -123,7 +134,7 @@ Recover ==
 Replicate ==
     /\ phase = "replayed"
     /\ replica' = IF wal = "env" THEN live
-                  ELSE { <<"default", RowMeas(m)>> : m \in { x \in Ms : RowMeas(x) # "" } }
+                  ELSE { <<ReplicaDb, RowMeas(m)>> : m \in { x \in Ms : RowMeas(x) # "" } }
     /\ phase' = "done"
     /\ UNCHANGED <<req, db, checks, denied, live, wal, replay, bypassed>>
 
